@@ -5,6 +5,29 @@ from . import runner, coqterm, streams
 ROOT = runner.ROOT
 
 
+def regression_tests(pid):
+    """reproducers of REPAIRED defects (findings/repaired/<pid>_*_test.go): they must pass; a failure means the defect
+    is back. Returns a list of violations (payload, suffix)."""
+    import re
+    from concurrent.futures import ThreadPoolExecutor
+    d = os.path.join(ROOT, 'findings', 'repaired')
+    files = sorted(f for f in os.listdir(d) if f.startswith(pid + '_') and f.endswith('_test.go')) if os.path.isdir(d) else []
+    def one(fn):
+        src = open(os.path.join(d, fn)).read()
+        place = re.search(r'PLACE:\s*(\S+)', src.split('\n')[0]).group(1).strip('`')
+        tests = re.findall(r'^func (Test\w+)\(', src, re.M)
+        failed, log, built = gotest(os.path.join(d, fn), place, tests)
+        return fn, place, tests, failed, log, built
+    out = []
+    with ThreadPoolExecutor(max_workers=6) as ex:
+        for fn, place, tests, failed, log, built in ex.map(one, files):
+            if failed or not built:
+                out.append((dict(kind='regression-test', file='findings/repaired/' + fn, place=place, failed_tests=failed, built=built,
+                                 how_to_run='copy the file into %s of the repository and run go test -run "%s"' % (place, '|'.join(tests)),
+                                 log=log[-3000:], meaning='the reproducer of a defect that was repaired fails again'), ''))
+    return files, out
+
+
 def corpus_scripts(pid, sname):
     d = os.path.join(ROOT, 'corpus', pid)
     out = []
@@ -28,8 +51,33 @@ def project(ob, keys):
     return {k: ob.get(k) for k in keys}
 
 
+def gotest(path, place, tests):
+    """run the Go tests of one witness file against the repository under test WITHOUT touching it: the file is injected
+    into the package with `go test -overlay`. Returns (failed test names, whole log, built?)."""
+    import re, subprocess, tempfile
+    ov = tempfile.NamedTemporaryFile('w', suffix='.json', delete=False, dir=runner.BUILD)
+    json.dump({'Replace': {os.path.join(runner.REPO, place, 'zz_verif_' + os.path.basename(path)): os.path.abspath(path)}}, ov)
+    ov.close()
+    try:
+        p = subprocess.run(['go', 'test', '-count=1', '-vet=off', '-overlay', ov.name, '-run', '^(%s)$' % '|'.join(tests), './' + place + '/'],
+                           cwd=runner.REPO, env=runner.GOENV, stdout=subprocess.PIPE, stderr=subprocess.STDOUT, text=True, timeout=900)
+    finally:
+        os.remove(ov.name)
+    log = p.stdout
+    failed = sorted(set(re.findall(r'--- FAIL: (\w+)', log)))
+    built = 'build failed' not in log and 'setup failed' not in log
+    if p.returncode != 0 and built and not failed:
+        failed = ['(panic or timeout)']
+    return failed, log, built
+
+
 def witness_still_fails(k):
     """replay the witness of a known finding on the implementation: does it still behave as recorded?"""
+    if k.get('witness_gotest'):
+        failed, log, built = gotest(os.path.join(ROOT, k['witness_gotest']), k['place'], k['tests'])
+        if not built:
+            raise RuntimeError('witness does not build: ' + log[-400:])
+        return bool(failed)
     w = json.load(open(os.path.join(ROOT, k['witness'])))
     sdk = w.get('sdk', 'v2')
     obs = runner.run_harness(sdk, [{'id': 'w', 'ops': w['ops']}], dump=False, tag='witness')['w']
